@@ -79,30 +79,61 @@ def frac_inverse(M):
 
 
 # ============================================================================================
-def scenario_rotation(rng, Ts, d, B, ncoef):
+def typed_parity_expansion(rng, d, shape, nl, dtype):
+    ex = tc.exponents(d, tc.LMAX)
+    out = []
+    for n, l in nl:
+        c = tc.rand_typed(rng, dtype, (tc.npow_count(d, l),) + tuple(shape), density=0.5, nonreal=False)
+        for p in range(c.shape[0]):
+            if (n - sum(ex[p])) % 2 != 0: c[p] = 0
+        out.append((n, l, c))
+    return out
+
+
+def scenario_rotation(rng, Ts, d, B, ncoef, Adtype="float"):
+    """coefficient dtypes int / float / complex (cycled), matrix dtype float (dyadic) or int; complex coefficients reach the
+    (real) model through the real embedding (re, im stacked: rotation acts on both alike)"""
     T = Ts[d]
-    A = rand_dyadic_matrix(rng, d)
+    if Adtype == "int":
+        while True:
+            A = np.array([[rng.randint(-2, 2) for _ in range(d)] for _ in range(d)], dtype=np.int64)
+            if abs(np.linalg.det(A)) > 0.5 and np.count_nonzero(A) > d: break
+    else:
+        A = rand_dyadic_matrix(rng, d)
     with tc.unchanged("exact tier: rotatedirections", A=A): npt = T.rotatedirections(A)
     N = int(T.Npower)
     tab = B.define("(rotatedirections QK %d 4 %s)" % (d, tc.qmat(A)), "list (list (list QK))")
     den = tc.common_den([npt])
     lit = "[" + ";".join("(zmatq %d%%positive [%s]%%Z)" % (den, ";".join(tc.zlist(tc.ints(row, den)) for row in npt[n])) for n in range(tc.LMAX + 1)) + "]"
-    B.add("code true (leqb tabeq %s %s)" % (tab, lit), op="rotatedirections", inp={"dim": d, "A": A.tolist()},
+    B.add("code true (leqb tabeq %s %s)" % (tab, lit), op="rotatedirections[%s matrix]" % Adtype, inp={"dim": d, "A": A.tolist()},
           impl="table %dx%dx%d" % (tc.LMAX + 1, N, N), dim=d, shape=(), size=1, nontrivial=True)
+    # history independence: a second, NEARBY matrix (one entry moved by 2^-21, inside np.allclose of the first) right after the
+    # first call must get its own table (compared with the model's exact table for the second matrix, 1e-12)
+    A2 = np.array(A, dtype=float); i2, j2 = rng.randrange(d), rng.randrange(d); A2[i2, j2] += 2.0 ** -21
+    with tc.unchanged("exact tier: rotatedirections (nearby matrix)", A=A2): npt2 = T.rotatedirections(A2)
+    lit2 = "[" + ";".join("(zmatq %d%%positive [%s]%%Z)" % (tc.GRID, ";".join(tc.zlist(tc.grid_ints(row, tc.GRID)) for row in npt2[n])) for n in range(tc.LMAX + 1)) + "]"
+    B.add("code true (leqb (tabclose (qq 1 1000000000000)) (rotatedirections QK %d 4 %s) %s)" % (d, tc.qmat(A2), lit2),
+          op="rotatedirections-after-nearby-matrix", inp={"dim": d, "A_first": np.asarray(A).tolist(), "A_second": A2.tolist()},
+          impl="table %dx%dx%d" % (tc.LMAX + 1, N, N), dim=d, shape=(), size=1, nontrivial=True)
+    with tc.unchanged("exact tier: rotatedirections (first matrix again)", A=A): npt = T.rotatedirections(A)
     for k in range(ncoef):
+        cdt = tc.DTYPES[k % 3]
         shape = rng.choice([(), (), (2, 2), (1, 2)]); n = tc.nflat(shape)
-        a = parity_expansion(rng, d, shape, parity_nl(rng, rng.choice([1, 2, 3]), distinct=rng.random() < .7))
+        a = typed_parity_expansion(rng, d, shape, parity_nl(rng, rng.choice([1, 2, 3]), distinct=rng.random() < .7), cdt)
         if not a: continue
-        V = "(pwmod QK %d)" % n
-        An = B.define(tc.mkx(n, a), xtype(n))
+        V = "(pwmod QK %d)" % (2 * n)
+        An = B.define(tc.mkx(2 * n, tc.fstackc(a)), xtype(2 * n))
         dom = "(wfb QK %d 4 %s %s && forallb (parity_okb_entry QK %d 4 %s) %s)" % (d, V, An, d, V, An)
         ta = T(a)
-        with tc.unchanged("exact tier: rotate", a=ta, npowtrans=npt): res = tc.real_coefflist(ta.rotate(npt))
-        t2 = T(a); t2.irotate(npt); res2 = tc.real_coefflist(t2)
+        ajs = [[nn, l, repr(np.asarray(c).tolist())] for nn, l, c in a]
+        with tc.unchanged("exact tier: rotate", a=ta, npowtrans=npt): res = tc.fstackc(ta.rotate(npt).coefflist)
+        t2 = T(a)
+        with tc.unchanged("exact tier: irotate", npowtrans=npt): t2.irotate(npt)
+        res2 = tc.fstackc(t2.coefflist)
         for op, r in (("rotate", res), ("irotate", res2)):
-            B.add("code %s (ocmp %d (peqb QK %d) (rotatecoeff QK %d 4 %s %s %s) %s)" % (dom, n, n, d, V, tab, An, tc.mkx(n, r)),
-                  op=op, inp={"dim": d, "A": A.tolist(), "shape": list(shape), "a": tc.jsonable(a)}, impl=tc.jsonable(r),
-                  dim=d, shape=shape, size=len(a), nontrivial=any(np.any(c != 0) for _, _, c in a))
+            B.add("code %s (ocmp %d (peqb QK %d) (rotatecoeff QK %d 4 %s %s %s) %s)" % (dom, 2 * n, 2 * n, d, V, tab, An, tc.mkx(2 * n, r)),
+                  op="%s[%s coeff, %s matrix]" % (op, cdt, Adtype), inp={"dim": d, "A": A.tolist(), "shape": list(shape), "coef_dtype": cdt, "a": ajs},
+                  impl=tc.jsonable(r), dim=d, shape=shape, size=len(a), nontrivial=any(np.any(c != 0) for _, _, c in a))
 
 
 def gen_invertible(rng, d, k, scalar):
@@ -156,10 +187,10 @@ def scenario_inverse(rng, Ts, d, B):
 def exact_tier(ck, Ts):
     rng = ck.rng
     B = Batch()
-    for g in range(ck.n(5, 60)):
+    for g in range(ck.n(6, 60)):
         d = 3 if g % 2 == 0 else 2
         try:
-            scenario_rotation(rng, Ts, d, B, ck.n(4, 6))
+            scenario_rotation(rng, Ts, d, B, ck.n(3, 6), Adtype=("int" if g % 3 == 2 else "float"))
         except (ArithmeticError, ValueError, TypeError, IndexError) as e:
             ck.violation("implementation raised %s: %s in rotation" % (type(e).__name__, e), {"dim": d, "group": g}, key="c17-exception-rotate")
     for g in range(ck.n(24, 500)):
@@ -183,8 +214,8 @@ def exact_tier(ck, Ts):
     nsamp = {}
     for meta, c in zip(B.meta, codes):
         samp = None
-        if nsamp.get(meta["op"], 0) < 1 and meta["nontrivial"] and meta["op"] in ("rotate", "inv"):
-            samp = {"tier": "exact", "op": meta["op"], "input": meta["inp"], "impl_result": meta["impl"]}; nsamp[meta["op"]] = 1
+        if nsamp.get(meta["op"].split("[")[0], 0) < 1 and meta["nontrivial"] and meta["op"].split("[")[0] in ("rotate", "inv"):
+            samp = {"tier": "exact", "op": meta["op"], "input": meta["inp"], "impl_result": meta["impl"]}; nsamp[meta["op"].split("[")[0]] = 1
         ck.case(key=(meta["op"], meta["inp"]), nontrivial=bool(meta["nontrivial"]),
                 kind="exact:%s:%dD:%s" % (meta["op"], meta["dim"], "scalar" if meta["shape"] == () else "matrix"), sample=samp)
         if c == 1:
@@ -192,7 +223,7 @@ def exact_tier(ck, Ts):
         if c != 0:
             ck.violation("exact correspondence: %s of Taylor%dD differs from the model" % (meta["op"], meta["dim"]),
                          {"op": meta["op"], "input": meta["inp"], "impl_result": meta["impl"], "model_code": c,
-                          "tolerance": meta.get("tol", 0)}, key="c17-exact-%s" % meta["op"])
+                          "tolerance": meta.get("tol", 0)}, key="c17-exact-%s" % meta["op"].split("[")[0])
     ck.extra["exact_cases"] = len(codes)
     ck.extra["traces_validated_against_impl"] = len(codes)
 
@@ -203,8 +234,10 @@ def rand_float_parity(nr, rng, d, shape, nl, cplx):
     ex = tc.exponents(d, tc.LMAX)
     for n, l in nl:
         sh = (tc.npow_count(d, l),) + tuple(shape)
-        c = nr.normal(size=sh)
-        if cplx: c = c + 1j * nr.normal(size=sh)
+        if cplx == "int": c = nr.integers(-3, 4, size=sh)
+        else:
+            c = nr.normal(size=sh)
+            if cplx is True or cplx == "complex": c = c + 1j * nr.normal(size=sh)
         for p in range(sh[0]):
             if (n - sum(ex[p])) % 2 != 0: c[p] = 0
         out.append((n, l, c))
@@ -238,10 +271,11 @@ def float_tier(ck, Ts):
         else:
             d = rng.choice([3, 2]); src = "random"
             while True:
-                A = nr.normal(size=(d, d))
+                A = nr.integers(-2, 3, size=(d, d)) if rng.random() < .15 else nr.normal(size=(d, d))     # int matrices as well
                 if np.linalg.cond(A) < 20: break
         T = Ts[d]
-        cplx = rng.random() < .3
+        cplx = rng.choice(["int", "float", "float", "complex"])
+        src += ":%s-coeff:%s-A" % (cplx, "int" if A.dtype.kind == "i" else "float")
         shape = rng.choice([(), (2, 2), (1, 3)])
         nl = parity_nl(rng, rng.randint(1, 4), distinct=rng.random() < .6)
         a = rand_float_parity(nr, rng, d, shape, nl, cplx)
@@ -261,6 +295,24 @@ def float_tier(ck, Ts):
             ck.violation("implementation raised %s: %s in rotate" % (type(e).__name__, e),
                          {"dim": d, "A": A.tolist(), "nl": nl, "iteration": it}, key="c17-float-exception-rotate")
             continue
+        if it % 4 == 0:
+            # history: a matrix within np.allclose of the previous one must not be served the previous table
+            A2 = np.array(A, dtype=float) * (1 + 6e-6 * nr.uniform(-1, 1, size=(d, d)))
+            try:
+                with tc.unchanged("rotatedirections (nearby matrix)", A=A2): npt2 = T.rotatedirections(A2)
+                l4 = tc.impl_value(T(a).rotate(npt2), p)
+                r4 = tc.value(a, A2 @ porig, d)
+                e4 = float(np.max(np.abs(np.asarray(l4) - np.asarray(r4)))) / (1 + absscale(a, float(np.linalg.norm(A2 @ porig))))
+                worst = max(worst, e4)
+                ck.case(key=("float", "rotate-nearby", it), nontrivial=True, kind="float:rotate-after-nearby-matrix:%dD" % d)
+                if not (e4 <= FTOL):
+                    ck.violation("history dependence: rotatedirections(A2) called right after rotatedirections(A) with |A2-A| ~ 6e-6|A| gives a rotation "
+                                 "that differs from the original at A2 p by %.3g (relative to scale)" % e4,
+                                 {"dim": d, "A": np.asarray(A).tolist(), "A2": A2.tolist(), "nl": nl, "p": porig.tolist(), "iteration": it, "seed": ck.seed},
+                                 key="c17-rotatedirections-history")
+            except (ArithmeticError, ValueError, TypeError, IndexError) as e:
+                ck.violation("implementation raised %s: %s in rotatedirections (nearby matrix)" % (type(e).__name__, e),
+                             {"dim": d, "A2": A2.tolist()}, key="c17-float-exception-rotate")
         rhs = tc.value(a, A @ porig, d)              # definition-level evaluation of the original at A p (original point)
         rhs_impl = tc.impl_value(T(a), q)
         sc = 1 + absscale(a, float(np.linalg.norm(q))) * max(1.0, np.linalg.norm(A, 2)) ** 0
@@ -271,7 +323,7 @@ def float_tier(ck, Ts):
                     sample={"tier": "float", "op": label, "dim": d, "A": A.tolist(), "nl": nl, "p": p.tolist(), "rel_err": err} if it == len(gfm) and label == "rotate" else None)
             if not (err <= FTOL):
                 ck.violation("float evaluator: %s evaluated at p differs from the original at A p by %.3g (relative to scale)" % (label, err),
-                             {"op": label, "dim": d, "A": A.tolist(), "a": [[n, l, np.asarray(c).tolist()] for n, l, c in a] if not cplx else "complex",
+                             {"op": label, "dim": d, "A": A.tolist(), "a": [[n, l, np.asarray(c).tolist()] for n, l, c in a] if cplx != "complex" else "complex",
                               "nl": nl, "p": p.tolist(), "lhs": np.asarray(lhs).tolist(), "rhs": np.asarray(rhs).tolist(),
                               "iteration": it, "seed": ck.seed}, key="c17-float-%s" % label.split(".")[0])
     # inversion: inv(a) * a = 1 through the requested order, order by order
@@ -331,13 +383,14 @@ def real_dtype_probe(ck, Ts):
     for d in (3, 2):
         T = Ts[d]
         for label, a, Nmax in (("scalar", [(0, 0, np.array([2.0])), (1, 0, np.array([1.0])), (2, 0, np.array([-1.0]))], 2),
+                               ("int-scalar", [(0, 0, np.array([2])), (1, 0, np.array([1])), (2, 0, np.array([-1]))], 2),
                                ("matrix", [(0, 0, np.array([[[2.0, 0.5], [0.0, 1.0]]])), (1, 0, np.array([[[1.0, 0.0], [0.5, 1.0]]])),
                                            (2, 0, np.array([[[0.0, 1.0], [1.0, 0.5]]]))], 2)):
             ck.case(key=("real-dtype", d, label), nontrivial=True, kind="probe:inv-real-dtype:%dD" % d)
             try:
                 inv = T(a).inv(Nmax)
                 prod = tc.impl_value(inv * T(a), np.array([0.3, 0.4, 0.5][:d]), per_order=True)
-                ident = 1.0 if label == "scalar" else np.eye(2)
+                ident = 1.0 if label.endswith("scalar") else np.eye(2)
                 err = max(float(np.max(np.abs(np.asarray(v) - (ident if n == 0 else 0 * ident)))) for n, v in prod.items() if n <= Nmax)
                 if not err <= FTOL:
                     ck.violation("inv() of a real-dtype expansion: inv(a)*a differs from 1 by %.3g" % err,
